@@ -1,7 +1,77 @@
+(** C11 — store and identity-provider faults fail closed. Faults are arguments of [ERun]; every theorem
+    quantifies over the fault. *)
 From Coq Require Import ZArith NArith Bool List.
-From WW Require Import Gen.Params Base.AMap Model.SessionTime Model.Machine Model.Entry Proofs.MachineRefute.
+From WW Require Import Gen.Params Base.AMap Model.SessionTime Model.Machine Model.Entry
+     Proofs.MachineP Proofs.MachineFaultP Proofs.MachineRefute.
 Import ListNotations.
 Open Scope Z_scope.
+
+Lemma pin_retry_max : retry_max = 5 * second. Proof. reflexivity. Qed.
+
+(** A token is written only for a session record: every other result of the session lookup / refresh
+    (not found, invalid, rejected by the provider, cancelled, store or provider failure) forwards none;
+    and the token written is never expired at that instant. *)
+Theorem c11_token_only_from_session : forall c acr r now a i,
+  finish_proxy c acr r now = OForward (Some a) i ->
+  exists d, r = ROk d /\ a = sd_at d /\ has_at d = true /\ is_expired (sd_md d) now = false /\
+            (acr <> 0%N -> acr_ok acr (sd_acr d) = true) /\
+            i = (if c_idtoken c then Some (sd_idt d) else None).
+Proof. exact finish_proxy_token. Qed.
+Print Assumptions c11_token_only_from_session.
+
+(** A request leaves its first read towards a session (lock acquisition, any later phase, or an accepted
+    outcome) only through a successful, un-faulted, un-cancelled read of an entry that its cookie's data key
+    opens: a session is never assumed without having been read in this request. *)
+Theorem c11_session_needs_successful_read : forall c w t f start w' t' o,
+  t_phase t = PGet start -> step c w t f = (w', t', o) ->
+  (held_tok t' <> None \/ (exists old s, t_phase t' = PLock old s) \/
+   (exists out, t_phase t' = PDone out /\ accepted (t_kind t) out = true)) ->
+  o = ObGet (cookie_key (t_cookie t)) 1 /\ f <> FStore /\ t_cancel t = false /\
+  exists e, store_get w (cookie_key (t_cookie t)) = Some e /\ e_dek e = cookie_dek (t_cookie t).
+Proof. exact first_read_needed. Qed.
+Print Assumptions c11_session_needs_successful_read.
+
+(** A provider rejection (4xx) of the refresh grant makes the request unauthenticated, for every handler. *)
+Theorem c11_provider_rejection_unauthenticated : forall c k old now,
+  accepted k (finish_refresh c k old RInvalidExternal now) = false.
+Proof. exact provider_rejection_unauthenticated. Qed.
+Print Assumptions c11_provider_rejection_unauthenticated.
+
+(** Absorption: a transient store fault (or provider 5xx) while the retry budget lasts changes nothing -
+    the operation is simply attempted again, so the outcome equals the fault-free one. *)
+Theorem c11_transient_store_fault_absorbed : forall c w t,
+  store_phase (t_phase t) -> t_cancel t = false -> retry_left c (phase_start (t_phase t)) (w_clock w) = true ->
+  fst (step c w t FStore) = (w, t).
+Proof. exact transient_store_fault_stutters. Qed.
+Print Assumptions c11_transient_store_fault_absorbed.
+
+Theorem c11_transient_provider_fault_absorbed : forall c w t old cur tok start,
+  t_phase t = PIdp old cur tok start -> t_cancel t = false -> retry_left c start (w_clock w) = true ->
+  fst (step c w t FIdp5xx) = (w, t).
+Proof. exact transient_provider_fault_stutters. Qed.
+Print Assumptions c11_transient_provider_fault_absorbed.
+
+(** Logout / local logout report success after the lookup only if the store answered (absent, or not this
+    cookie's session); a lookup that failed with a store fault or cancellation never yields success. *)
+Theorem c11_logout_lookup_failure_reported : forall c w t f start w' t' o,
+  c_logout_strict c = true -> t_phase t = PGet start -> (t_kind t = KLogout \/ t_kind t = KLogoutLocal) ->
+  step c w t f = (w', t', o) -> t_phase t' = PDone (logout_success (t_kind t)) ->
+  t_cancel t = false /\ f <> FStore /\
+  (store_get w (cookie_key (t_cookie t)) = None \/
+   exists e, store_get w (cookie_key (t_cookie t)) = Some e /\ e_dek e <> cookie_dek (t_cookie t)).
+Proof. exact logout_lookup_step. Qed.
+Print Assumptions c11_logout_lookup_failure_reported.
+
+(** ... and likewise after the delete. *)
+Theorem c11_logout_delete_failure_reported : forall c w t f start key w' t' o,
+  t_phase t = PDel start key -> step c w t f = (w', t', o) ->
+  t_phase t' = PDone (logout_success (t_kind t)) ->
+  (t_kind t = KLogout \/ t_kind t = KLogoutLocal \/ exists sid, t_kind t = KFront sid) ->
+  alookup key (w_store w') = None /\ t_cancel t = false /\ f <> FStore.
+Proof. intros. eapply logout_del_step; eauto. Qed.
+Print Assumptions c11_logout_delete_failure_reported.
+
+(** Pre-fix code (flag off): the lookup fails until the retry budget is gone, yet the logout answers 302. *)
 Theorem c11_lenient_logout_refuted :
   let s := run_events (cfg_redis true true false) (init_state 3600) lenient_logout_schedule in
   thread_done s 1 (OStatus 302) /\ exists e, store_get (m_w s) 1 = Some e.
